@@ -56,31 +56,37 @@ func resolveBufRoles(p *Prog) *bufRoles {
 		return r
 	}
 	var ints []string
-	for i := 0; i < st.NumFields(); i++ {
-		f := st.Field(i)
-		switch t := f.Type().(type) {
+	flattenFields = true
+	for _, f := range flatStructFields(st, "", 0) {
+		switch t := f.Type.(type) {
 		case *types.Named:
 			if isMutexType(t) {
-				r.mutex = f.Name()
+				r.mutex = f.Name
+			}
+			// a named channel type (a small local type with methods around the wake-up channel)
+			if ch, ok := t.Underlying().(*types.Chan); ok {
+				if s, ok := ch.Elem().Underlying().(*types.Struct); ok && s.NumFields() == 0 {
+					r.notify = f.Name
+				}
 			}
 		case *types.Slice:
 			if isByteSlice(t) {
-				r.data = f.Name()
+				r.data = f.Name
 			}
 		case *types.Chan:
 			if s, ok := t.Elem().Underlying().(*types.Struct); ok && s.NumFields() == 0 {
-				r.notify = f.Name()
+				r.notify = f.Name
 			}
 		case *types.Basic:
 			if t.Kind() == types.Bool {
-				r.closed = f.Name()
+				r.closed = f.Name
 			}
 			if t.Kind() == types.Int {
-				ints = append(ints, f.Name())
+				ints = append(ints, f.Name)
 			}
 		case *types.Pointer:
 			if typeName(t) == "deadline.Deadline" {
-				r.readDeadline = f.Name()
+				r.readDeadline = f.Name
 			}
 		}
 	}
